@@ -61,7 +61,7 @@ def gen_ops(rng, cfg, nops, kmax=5, pmax=3, failing=0.0):
     pool = {}
     for _ in range(nops):
         teams, regime = gen.gen_teams(rng, cfg["beta"], kmax=kmax, pmax=pmax,
-                                      regime=rng.choice(["typical", "wide", "mismatch", "equal_size", "huge_sigma", "identical"]))
+                                      regime=rng.choice(["typical", "wide", "mismatch", "equal_size", "huge_sigma", "identical", "round_numbers"]))
         if failing and rng.random() < failing:
             if str(cfg.get("gamma")).startswith("boom") and rng.random() < 0.5:
                 i = rng.randrange(len(teams))
